@@ -48,4 +48,10 @@ example : Gen.tr_IsLegalUnixFilename [0x61, 0x2F, 0x62] = some "'/' is not allow
     Gen.tr_IsLegalUnixFilename [0x2E, 0x2E] = some "reserved name" ∧
     Gen.tr_IsLegalUnixFilename [0x61, 0x2E, 0x62] = none := by decide
 
+/-- FAIL CLOSED (second audit pass, X2/X3): the tie theorems of this file are about the
+definition(s) TRANSLATED FROM THE TREE UNDER TEST, not about the committed default the
+extractor falls back to when the source leaves the translated subset – in that
+case this obligation breaks and `./check` reports it (besides the note). -/
+theorem translated_from_tree_under_test : Gen.tr_IsLegalUnixFilename_extracted = true := by decide
+
 end Props.C07
